@@ -6,6 +6,7 @@ INVARIANT ChunkBound
 INVARIANT Exact
 INVARIANT Conserved
 INVARIANT MemBound
+INVARIANT BufBound
 INVARIANT InputBound
 INVARIANT OutBound
 INVARIANT NoFalseAlarm
